@@ -14,6 +14,7 @@ import (
 	"github.com/hashicorp/raft"
 
 	"github.com/hashicorp/consul/agent/consul"
+	"github.com/hashicorp/consul/agent/consul/stream"
 	"github.com/hashicorp/consul/agent/structs"
 	"github.com/hashicorp/consul/internal/verifsim/simkit"
 )
@@ -59,6 +60,7 @@ type Cluster struct {
 	pending  []*pendingProposal
 	Leaders  int
 	lostReply bool
+	StreamPub *stream.EventPublisher
 	Failovers int
 }
 
@@ -75,14 +77,23 @@ type proposeResult struct {
 var ErrLostReply = errors.New("simulated raft: leadership lost while committing (entry was committed, reply lost)")
 
 func NewCluster(run *simkit.Run, gcTTL, gcGran time.Duration) *Cluster {
-	c := &Cluster{Run: run, GCTTL: gcTTL, GCGran: gcGran, Results: map[uint64]string{}, next: 5}
+	return NewClusterPub(run, gcTTL, gcGran, nil)
+}
+
+// NewClusterPub: the leader's FSM is wired to a real event publisher (no failovers then: a
+// publisher belongs to one server process).
+func NewClusterPub(run *simkit.Run, gcTTL, gcGran time.Duration, pub *stream.EventPublisher) *Cluster {
+	c := &Cluster{Run: run, GCTTL: gcTTL, GCGran: gcGran, Results: map[uint64]string{}, next: 5, StreamPub: pub}
 	c.newLeader(nil, 0)
 	return c
 }
 
 func (c *Cluster) newLeader(snap []byte, from int) {
 	c.Leaders++
-	c.L = NewReplica(fmt.Sprintf("leader%d", c.Leaders), c.GCTTL, c.GCGran)
+	if c.StreamPub != nil && c.Leaders > 1 {
+		panic("a cluster wired to a real event publisher cannot fail over")
+	}
+	c.L = NewReplicaPub(fmt.Sprintf("leader%d", c.Leaders), c.GCTTL, c.GCGran, c.StreamPub)
 	if snap != nil {
 		if err := c.L.Restore(snap); err != nil {
 			panic("leader restore from its own completed snapshot failed: " + err.Error())
@@ -389,6 +400,18 @@ func (c *Cluster) do(s Step, out *Outcome) {
 		c.Run.Eventf("leader snapshot at log position %d (%d bytes)", c.SnapIndex, len(b))
 	case s.Op == "leader.restart":
 		c.failover()
+	case s.Op == "leader.install":
+		// install-snapshot on the live server: FSM.Restore swaps the store (same content here:
+		// the snapshot is the server's own current state) and refreshes all stream topics
+		b, err := c.L.SnapshotBytes()
+		if err != nil {
+			panic("snapshot failed: " + err.Error())
+		}
+		if err := c.L.Restore(b); err != nil {
+			panic("restore of own snapshot failed: " + err.Error())
+		}
+		c.Run.Hit("probe.install-snapshot")
+		c.Run.Eventf("install-snapshot at log position %d", len(c.Log))
 	default:
 		if !c.doExt(s, out) {
 			panic("unknown step op " + s.Op)
